@@ -125,10 +125,10 @@ func c05build(form c05form, k *gen.T, pos string) (*c05dest, error) {
 			gen.Fld("P", "pre", false, canaryArr(8)),
 			gen.Fld("F", "f", false, ft),
 			gen.Fld("Q", "post", false, canaryArr(8)),
-			gen.Fld("S", "sibling", false, gen.Leaf(gen.KInt64)),
+			gen.Fld("S", "liquid", false, gen.Leaf(gen.KInt64)),
 			gen.Fld("G1", "guard_post", false, canaryArr(64)),
 		)
-		s, err := refavro.ParseSchema([]byte(`{"type":"record","name":"outer","fields":[{"name":"f","type":` + fs + `},{"name":"inner_a","type":"long"}]}`))
+		s, err := refavro.ParseSchema([]byte(`{"type":"record","name":"outer","fields":[{"name":"f","type":` + fs + `},{"name":"inner_a","type":"long"},{"name":"costarring","type":"long"}]}`))
 		if err != nil {
 			return nil, err
 		}
@@ -144,10 +144,10 @@ func c05build(form c05form, k *gen.T, pos string) (*c05dest, error) {
 		// an embedded struct whose promoted field has the name of a schema field: the library matches
 		// direct fields only, so "inner_a" must be skipped and Emb must stay untouched
 		&gen.F{Go: "Emb", Embedded: true, T: gen.StructOf(gen.Fld("A", "inner_a", false, gen.Leaf(gen.KInt64)), gen.Fld("B", "f", false, gen.Leaf(gen.KInt64)))},
-		gen.Fld("S", "sibling", false, gen.Leaf(gen.KInt64)),
+		gen.Fld("S", "liquid", false, gen.Leaf(gen.KInt64)),
 		gen.Fld("G1", "guard_post", false, canaryArr(64)),
 	)
-	s, err := refavro.ParseSchema([]byte(`{"type":"record","name":"outer","fields":[{"name":"f","type":` + fs + `},{"name":"inner_a","type":"long"}]}`))
+	s, err := refavro.ParseSchema([]byte(`{"type":"record","name":"outer","fields":[{"name":"f","type":` + fs + `},{"name":"inner_a","type":"long"},{"name":"costarring","type":"long"}]}`))
 	if err != nil {
 		return nil, err
 	}
@@ -161,19 +161,22 @@ func c05pat(o uintptr, salt int) byte { return byte((int(o)*7+salt*13)%251 + 1) 
 // wrapDatum places the form's datum at the position.
 func c05wrap(pos string, d any, d2 any) any {
 	tail := int64(0x1122334455667788)
+	// a third schema field the destination has no field for; its name has the 32-bit FNV-1a hash of the name of a
+	// destination field ("liquid") that the schema does not mention
+	tail2 := int64(0x0badc0de)
 	switch pos {
 	case "ptrslice":
 		items := make([]any, 0, 40)
 		for len(items) < 40 {
 			items = append(items, d, d2)
 		}
-		return &refavro.Record{Fields: []any{items, tail}}
+		return &refavro.Record{Fields: []any{items, tail, tail2}}
 	case "slice":
-		return &refavro.Record{Fields: []any{[]any{d, d2}, tail}}
+		return &refavro.Record{Fields: []any{[]any{d, d2}, tail, tail2}}
 	case "map":
-		return &refavro.Record{Fields: []any{&refavro.Map{Entries: []refavro.MapEntry{{Key: "k1", Val: d}, {Key: "k2", Val: d2}}}, tail}}
+		return &refavro.Record{Fields: []any{&refavro.Map{Entries: []refavro.MapEntry{{Key: "k1", Val: d}, {Key: "k2", Val: d2}}}, tail, tail2}}
 	}
-	return &refavro.Record{Fields: []any{d, tail}}
+	return &refavro.Record{Fields: []any{d, tail, tail2}}
 }
 
 // deepTouch reads everything reachable from v (a corrupt value faults here, in the child).
